@@ -43,7 +43,7 @@ def plan(tier, seed, kf_ids):
             for fa, fb in fams:
                 jobs.append(A.mul128("c01", s, f, fa, fb, timeout=3000))
     return {
-        "engine_m": True,
+        "engine_m": ["mul128", "widen"],
         "feature": "c01",
         "jobs": jobs,
         "functions": ["[Engine M, from the MIR dump] arith.rs: mul_overflow and div_overflow of all ten integer types with every helper "
